@@ -99,11 +99,11 @@ theorem insertCore_err (c : Codec) (e e' : Engine) (rel : String) (ts : List Tup
         | none => simp at h
 
 /-- `delete_tuples_from`, live side. -/
-theorem deleteCore_ok (c : Codec) (e e' : Engine) (rel : String) (ts : List Tuple) (n : Nat)
-    (h : deleteCore c e rel ts = (e', .ok n)) :
+theorem deleteCoreRaw_ok (c : Codec) (e e' : Engine) (rel : String) (ts : List Tuple) (n : Nat)
+    (h : deleteCoreRaw c e rel ts = (e', .ok n)) :
     liveOf e' rel = deleteLive (liveOf e rel) ts ∧ n = (liveOf e rel).length - (liveOf e' rel).length ∧
     ∀ r, r ≠ rel → liveOf e' r = liveOf e r := by
-  unfold deleteCore at h
+  unfold deleteCoreRaw at h
   cases ts with
   | nil =>
     simp only [Prod.mk.injEq, Except.ok.injEq] at h
@@ -148,9 +148,9 @@ theorem deleteCore_ok (c : Codec) (e e' : Engine) (rel : String) (ts : List Tupl
           refine ⟨by rw [liveOf_aset', hex]; simp, by rw [liveOf_aset', hex]; simp [← h2], ?_⟩
           intro r hr; rw [liveOf_aset']; simp [hr, liveOf, hl]
 
-theorem deleteCore_err (c : Codec) (e e' : Engine) (rel : String) (ts : List Tuple) (k : String)
-    (h : deleteCore c e rel ts = (e', .error k)) : e'.live = e.live := by
-  unfold deleteCore at h
+theorem deleteCoreRaw_err (c : Codec) (e e' : Engine) (rel : String) (ts : List Tuple) (k : String)
+    (h : deleteCoreRaw c e rel ts = (e', .error k)) : e'.live = e.live := by
+  unfold deleteCoreRaw at h
   cases ts with
   | nil => simp at h
   | cons first rest =>
